@@ -149,85 +149,6 @@ class C13(Check):
                    'callbacks do not re-enter Server::run; every one-client operation calls Poll::set/remove at most once']
 
     def __init__(self):
-        self.backlog = 0
-        self.susp = False
-        self.gone = False
-
-    def write(self, n, outcome):
-        if self.backlog > 0:
-            self.backlog += n
-            return
-        s = sent_of(outcome, n)
-        if s is None:
-            self.gone = True          # closing: the application is told by onClosed
-        else:
-            self.backlog = n - s
-
-    def ev(self, mask, outcome):
-        if self.backlog > 0 and ('o' in mask or ('h' in mask and (self.susp or not ('i' in mask or 'h' in mask)))):
-            s = sent_of(outcome, self.backlog)
-            if s is None:
-                self.backlog = 0
-                self.gone = True
-            else:
-                self.backlog -= s
-
-
-def aimed_outcome(rng, n, allow_fail=False):
-    """an outcome for a send of n bytes aimed at the case splits: refuse / 1 / middle / n-1 / n / more than n"""
-    r = rng.random()
-    if allow_fail and r < 0.06:
-        return rng.choice(['zero', 'err'])
-    if r < 0.22:
-        return 'wb'
-    if r < 0.40:
-        return 'full'
-    if n <= 1:
-        return rng.choice(['s1', 'full', 'wb'])
-    pick = rng.choice([1, n - 1, n, n + 1, rng.randrange(1, n + 1), max(1, n // 2)])
-    return 's%d' % pick
-
-
-class C13(Check):
-    id = 'C13'
-    comp = 'ServerWrite'
-    extracted = ['coq/ServerWrite/model.mli', 'coq/ServerWrite/model.ml', 'ocaml/zconv.ml', 'ocaml/serverwrite_driver.ml']
-    harness_sources = ['harness/serverwrite.cpp', 'harness/serverwrite_kernel.cpp']
-    per_case_timeout = 20
-    level_text = ('Theorems in Coq about a model of one Server client (ClientImpl::write/read/suspend/resume, the client part of the '
-                  'dispatch in Server::Private::run, Poll::set/remove and the epoll event mapping), for EVERY history: the answer of '
-                  'the operating system to every send (would-block, any partial count, full, 0, error) and the readiness reported by '
-                  'every poll are inputs of the steps. Proved: bytes handed to the OS ++ backlog = concatenation in call order of the '
-                  'writes that returned true; peer bytes ++ bytes in flight = bytes handed to the OS; postponed / getSendBufferSize = '
-                  'accepted - handed over; onWrite in a step iff that step hands the whole non-empty backlog over (at most one '
-                  'callback per step); every event reporting the client writable offers the backlog to the OS whether or not it is '
-                  'also readable, and the backlog drains within |backlog| such events with exactly one onWrite; the dispatch rule of '
-                  'the code before fixes/C13/01 starves the backlog forever (theorem with witness); a suspended client gets no onRead; '
-                  'interest set invariant; the model refines the reference object the implementation is judged against. The model is '
-                  'tied to the code by running the extracted model, the extracted reference object and the ASan/UBSan build of the '
-                  'working tree on the same histories under a simulated kernel (send/epoll_ctl/epoll_wait interposed): return values, '
-                  'postponed, getSendBufferSize, isSuspended, callbacks, intercepted send calls, bytes handed to the OS, epoll '
-                  'registration mask and the byte stream read at the peer end of the socket pair are compared line by line.')
-    level_note = ('partial: the kernel\'s in-order delivery of the bytes it accepted (stream socket semantics) is assumed (the model\'s wire '
-                  'is a FIFO; the harness does read the peer end of a real socket pair and compares). One client; other clients, '
-                  'listeners, timers of the same loop are C14. Validated by correspondence only: that Server.cpp/Socket.cpp behave as '
-                  'the model (differential, simulated kernel); Buffer internals are C08. Modelled as input: every send result, every '
-                  'epoll readiness report, peer behaviour, order of application calls. Trusted: Coq kernel, extraction + OCaml driver, '
-                  'harness + interposed kernel.')
-    technique = 'Coq proof (invariant + induction over histories + refinement to a reference object) ; differential correspondence under a simulated kernel'
-    rule = ('cases = histories of write(size, send outcome) / poll event(readiness mask, send outcome) / real-epoll poll / tick / '
-            'suspend / resume / read / peer write, read, close / remove, also issued from inside callbacks; exhaustive small scopes: '
-            'all histories of length 3 (thorough: 4) over 12 (14) representative operations; write size 0..5 x every outcome x second write x every outcome of the write-ready send; every readiness mask x '
-            '{backlog, none} x {suspended, not} x outcome; random histories aimed at partial counts 1, n-1, n, n+1. A case is '
-            'non-trivial when the implementation had a backlog at some point (sb>0), or got a poll event while suspended, or gave '
-            'the connection up; distinct = distinct op text')
-    assumptions = ['stream socket: the kernel delivers the bytes it accepted from send, in order, to the peer (FIFO wire in the model)',
-                   'epoll is level-triggered and reports only registered events plus EPOLLHUP/EPOLLERR (kernel_filter in the model, '
-                   'the interposed epoll_wait in the harness)',
-                   'send returns -1/EAGAIN, -1/error, 0, or 1..n (send_ret); a send of 0 bytes returns 0',
-                   'callbacks do not re-enter Server::run']
-
-    def __init__(self):
         Check.__init__(self)
         h = hashlib.sha256(open(os.path.join(VERIF, 'harness', 'serverwrite_kernel.h'), 'rb').read()).hexdigest()[:12]
         self.harness_flags = ['-DSK_HDR_HASH=0x' + h]      # header content takes part in the build key
